@@ -3,6 +3,8 @@ import JominiModel.Spec.TextTape
 import JominiModel.Proofs.TextTape
 import JominiModel.Proofs.TextTapeWf
 import JominiModel.Proofs.TextTapeCut
+import JominiModel.Proofs.TextTapeInv
+import JominiModel.Proofs.TextTapeScalars
 import JominiModel.Generated.Tables
 /-
 C01 — Text tape mirrors the document's structure regardless of layout.
@@ -96,6 +98,16 @@ sub-slices with strictly increasing starts. -/
 theorem C01_C06_text_checker_sound (input : Bytes) (toks : List Tok) :
     wfTextTape input toks = true ↔ WfTextTape input toks :=
   C06_text_checker_sound input toks
+
+/-- C06, text half, at full strength: whenever the parser model succeeds, on ANY input (well
+formed or not, any layout, truncated, random bytes), the tape satisfies `WfTextTape`.  Proof: an
+invariant on the shapes of the tape tokens (open containers form a strictly decreasing chain
+through their `end` slots down to 0, everything else is closed, linked both ways and nested)
+preserved by every transition incl. the EOF auto-close and the `MixedContainer` insert, plus an
+invariant on the scalars (sub-slices of the input, strictly decreasing distance to the end). -/
+theorem C01_C06_text_inv (input : Bytes) (T : List Tok) (b : Bool) (h : parse input = .ok T b) :
+    WfTextTape input T :=
+  C06_text_inv input T b h
 
 /-- a quoted scalar obtained from a truncated input is the scalar of the whole input at that
 place (never extended), and its closing quote lies inside the prefix. -/
